@@ -172,6 +172,29 @@ def run(chk):
             alt = rng.random() < 0.4
             cases.append((mode, spell_prog(rng, prog, mode, alt),
                           spell_data(rng, env, mode) if alt else c06.rich_canon(env, mode)))
+        # deep environment paths: path atoms of 8 and 16 significant bits (first byte >= 0x80: the converter
+        # hands them to the stepper as NEGATIVE Integers, which run_step must widen to the unsigned path) on
+        # environments deep enough for clvmr to resolve them, alone and under operators (seed C12-1)
+        deep_env = gen.lst([gen.int_atom(10 * (i + 1)) for i in range(18)])
+        deep_env2 = gen.lst([gen.lst([gen.int_atom(i + 1), gen.int_atom(100 + i)]) for i in range(18)])
+        for k in range(120 if quick else 2000):
+            bits = rng.choice([8, 8, 8, 16, 16, 24, 7, 9, 15, 17])
+            pv = (1 << (bits - 1)) | rng.getrandbits(bits - 1)
+            patom = pv.to_bytes((bits + 7) // 8, "big")
+            form = rng.randrange(5)
+            if form == 0:
+                prog = patom
+            elif form == 1:
+                prog = gen.lst([b"\x10", patom, (QUOTE, gen.int_atom(1))])
+            elif form == 2:
+                prog = gen.lst([b"\x05", patom])
+            elif form == 3:
+                prog = gen.lst([b"\x04", patom, (QUOTE, gen.int_atom(9))])
+            else:
+                prog = gen.lst([b"\x02", (QUOTE, gen.lst([b"\x04", patom, b"\x01"])), b"\x01"])
+            env = rng.choice([deep_env, deep_env2])
+            mode = "1" if rng.random() < 0.8 else "0"
+            cases.append((mode, spell_prog(rng, prog, mode, False), c06.rich_canon(env, mode)))
         ok, out = lib.build_harness()
         if not ok:
             chk.fail("proof", "harness-build", {}, out[-1500:])
